@@ -26,8 +26,13 @@ def dump(repo, work, features):
     t0 = time.time()
     shutil.rmtree(out, ignore_errors=True)
     os.makedirs(out, exist_ok=True)
-    env = dict(os.environ, VERIF_REPO=repo, CARGO_NET_OFFLINE="true")
+    # CARGO_INCREMENTAL=0: with incremental compilation rustc re-uses cached MIR and the passes
+    # (and therefore the dumps) do not run for unchanged functions
+    env = dict(os.environ, VERIF_REPO=repo, CARGO_NET_OFFLINE="true", CARGO_INCREMENTAL="0")
     subprocess.run([os.path.join(V, "bin", "mk_overlay.sh"), ov], check=True, env=env, stdout=subprocess.PIPE, stderr=subprocess.STDOUT)
+    # force rustc to run (an up-to-date crate would produce no dump)
+    lib = os.path.join(ov, "src", "lib.rs")
+    os.utime(lib, None)
     cmd = ["cargo", "+nightly", "rustc", "--offline", "--lib", "--target-dir", os.path.join(work, "mir", "target")]
     if features:
         cmd += ["--features", ",".join(features)]
@@ -40,10 +45,12 @@ def dump(repo, work, features):
     for f in os.listdir(out):
         if not f.endswith("StateTransform.before.mir"):
             os.remove(os.path.join(out, f))
+    if len([f for f in os.listdir(out) if f.endswith(".mir")]) < 20:
+        return None, None, time.time() - t0, log + "\nerror: MIR dump produced no bodies"
     open(os.path.join(out, ".complete"), "w").write("ok")
     # prune old dumps
     mirroot = os.path.join(work, "mir")
     olds = sorted((os.path.getmtime(os.path.join(mirroot, d)), d) for d in os.listdir(mirroot) if d not in ("target",))
-    for _t, d in olds[:-12]:
+    for _t, d in olds[:-24]:
         shutil.rmtree(os.path.join(mirroot, d), ignore_errors=True)
     return out, os.path.join(ov, "src"), time.time() - t0, log
